@@ -89,6 +89,10 @@ func (n *OneToOneNode) forward(proc *process.Process) {
 			n.tracer.Write(outWriter, outPck)
 		}
 	}
+
+	// The reader is closed: nobody is left to answer, whatever is still awaited downstream is moot.
+	n.tracer.Drop(outWriter)
+	n.tracer.Drop(errWriter)
 }
 
 func (n *OneToOneNode) backward(proc *process.Process) {
